@@ -64,24 +64,24 @@ mod vharness {
         }
     }
 
-    //@harness props=C20,C05,C01 strength=proof clause="std.parseJson string lexer on one raw 1-byte character, EVERY ASCII byte: U+0000..U+001F are rejected (RFC 8259: control characters must be escaped), the quote ends the string, a lone backslash is an error, every other byte is kept exactly" replay=json_raw_char
+    //@harness props=C20,C05,C01 quickfor=C20,C05 strength=proof clause="std.parseJson string lexer on one raw 1-byte character, EVERY ASCII byte: U+0000..U+001F are rejected (RFC 8259: control characters must be escaped), the quote ends the string, a lone backslash is an error, every other byte is kept exactly" replay=json_raw_char
     #[kani::proof]
     #[kani::unwind(4)]
     fn json_string_raw_char_1() { raw::<1, 3>(); }
-    //@harness props=C20,C05,C01 strength=proof clause="std.parseJson string lexer on one raw 2-byte character, EVERY well-formed 2-byte UTF-8 sequence: accepted and kept exactly, one column" replay=json_raw_char
+    //@harness props=C20,C05,C01 quickfor=C20,C05 strength=proof clause="std.parseJson string lexer on one raw 2-byte character, EVERY well-formed 2-byte UTF-8 sequence: accepted and kept exactly, one column" replay=json_raw_char
     #[kani::proof]
     #[kani::unwind(4)]
     fn json_string_raw_char_2() { raw::<2, 4>(); }
-    //@harness props=C20,C05,C01 strength=proof clause="std.parseJson string lexer on one raw 3-byte character, EVERY well-formed 3-byte UTF-8 sequence: accepted and kept exactly, one column" replay=json_raw_char
+    //@harness props=C20,C05,C01 quickfor=C20,C05 strength=proof clause="std.parseJson string lexer on one raw 3-byte character, EVERY well-formed 3-byte UTF-8 sequence: accepted and kept exactly, one column" replay=json_raw_char
     #[kani::proof]
     #[kani::unwind(4)]
     fn json_string_raw_char_3() { raw::<3, 5>(); }
-    //@harness props=C20,C05,C01 strength=proof clause="std.parseJson string lexer on one raw 4-byte character, EVERY well-formed 4-byte UTF-8 sequence: accepted and kept exactly, one column" replay=json_raw_char
+    //@harness props=C20,C05,C01 quickfor=C20,C05 strength=proof clause="std.parseJson string lexer on one raw 4-byte character, EVERY well-formed 4-byte UTF-8 sequence: accepted and kept exactly, one column" replay=json_raw_char
     #[kani::proof]
     #[kani::unwind(4)]
     fn json_string_raw_char_4() { raw::<4, 6>(); }
 
-    //@harness props=C20,C05,C01 strength=proof clause="std.parseJson single-character escapes, EVERY ASCII byte after the backslash: \\\" \\\\ \\/ \\b \\f \\n \\r \\t decode to exactly the RFC 8259 characters; every other byte (incl. the apostrophe, which JSON does not allow) is an InvalidStringEscape error"
+    //@harness props=C20,C05,C01 quickfor=C20,C05 strength=proof clause="std.parseJson single-character escapes, EVERY ASCII byte after the backslash: \\\" \\\\ \\/ \\b \\f \\n \\r \\t decode to exactly the RFC 8259 characters; every other byte (incl. the apostrophe, which JSON does not allow) is an InvalidStringEscape error"
     #[kani::proof]
     #[kani::unwind(4)]
     fn json_string_single_escape() {
@@ -117,7 +117,7 @@ mod vharness {
         else { buf[*n] = 0xF0 | (cp >> 18) as u8; buf[*n + 1] = 0x80 | ((cp >> 12) & 0x3F) as u8; buf[*n + 2] = 0x80 | ((cp >> 6) & 0x3F) as u8; buf[*n + 3] = 0x80 | (cp & 0x3F) as u8; *n += 4; }
     }
 
-    //@harness props=C20,C05,C01 strength=proof clause="std.parseJson on two adjacent \\uXXXX escapes, for EVERY pair of 16-bit code units and either hex-digit case (RFC 8259 section 7): a non-surrogate unit is that code point and the next escape is decoded independently; a high surrogate followed by a low surrogate is the one supplementary code point; every other surrogate combination is rejected; every VALID document of this shape is accepted" timeout=1200 replay=json_unicode_pair
+    //@harness props=C20,C05,C01 quickfor=C20,C05 strength=proof clause="std.parseJson on two adjacent \\uXXXX escapes, for EVERY pair of 16-bit code units and either hex-digit case (RFC 8259 section 7): a non-surrogate unit is that code point and the next escape is decoded independently; a high surrogate followed by a low surrogate is the one supplementary code point; every other surrogate combination is rejected; every VALID document of this shape is accepted" timeout=1200 replay=json_unicode_pair
     #[kani::proof]
     #[kani::unwind(4)]
     fn json_string_unicode_escape_pair() {
@@ -142,7 +142,7 @@ mod vharness {
         }
     }
 
-    //@harness props=C20,C05,C01 strength=proof clause="std.parseJson on ONE \\uXXXX escape, EVERY 16-bit code unit, either hex case: a non-surrogate unit decodes to that code point, a surrogate that is not followed by another escape is rejected" timeout=900
+    //@harness props=C20,C05,C01 quickfor=C20,C05 strength=proof clause="std.parseJson on ONE \\uXXXX escape, EVERY 16-bit code unit, either hex case: a non-surrogate unit decodes to that code point, a surrogate that is not followed by another escape is rejected" timeout=900
     #[kani::proof]
     #[kani::unwind(4)]
     fn json_string_unicode_escape_single() {
@@ -162,7 +162,7 @@ mod vharness {
         }
     }
 
-    //@harness props=C20,C05,C01 strength=proof clause="std.parseJson on \\uXXXX\\uYYYY whose first unit is ANY surrogate (U+D800..U+DFFF, all 2048) and whose second unit is ANY 16-bit value (lower-case hex): accepted exactly when it is a high surrogate followed by a low surrogate, and then decodes to 0x10000 + ((hi - 0xD800) << 10) + (lo - 0xDC00); every lead surrogate D800..DBFF is accepted with every trail" timeout=1200 replay=json_unicode_pair
+    //@harness props=C20,C05,C01 quickfor=C20,C05 strength=proof clause="std.parseJson on \\uXXXX\\uYYYY whose first unit is ANY surrogate (U+D800..U+DFFF, all 2048) and whose second unit is ANY 16-bit value (lower-case hex): accepted exactly when it is a high surrogate followed by a low surrogate, and then decodes to 0x10000 + ((hi - 0xD800) << 10) + (lo - 0xDC00); every lead surrogate D800..DBFF is accepted with every trail" timeout=1200 replay=json_unicode_pair
     #[kani::proof]
     #[kani::unwind(4)]
     fn json_string_surrogate_pair() {
